@@ -54,13 +54,41 @@ def check_case(rep, case, name):
             rep.dev(name, dict(case, hashseeds=[hs]), 'PYTHONHASHSEED=%s gives %s' % (hs, got[:60]), 'digest %s (as in this process)' % want); return
     rep.ok(2 + len(case['hashseeds']))
 
+def parameter_collision_cases(rep):
+    """one custom form used with several parameter tuples, evaluated back to back in both orders: the energy of a pair is a function of
+    ITS definition and r.  The tuples are chosen to collide under hash() (in CPython hash(-1.0) == hash(-2.0)) and under float equality
+    of sums, which is what a per-form memo keyed on the arguments would confuse."""
+    forms = [('power(r, A, n)', 'A*r^n'), ('lin(r, a, b)', 'a + b*r')]
+    pairs = [('O-O', 'power 2.0 -1', lambda r: 2.0 / r), ('U-U', 'power 2.0 -2', lambda r: 2.0 / r ** 2), ('O-U', 'lin -1 -2', lambda r: -1 - 2 * r), ('U-Zr', 'lin -2 -1', lambda r: -2 - r),
+             ('Zr-Zr', 'power -1.0 2', lambda r: -r * r), ('O-Zr', 'power -2.0 2', lambda r: -2 * r * r)]
+    for order, seq in (('file-order', pairs), ('reversed', list(reversed(pairs)))):
+        rep.case('parameter-collision', order)
+        ini = render([], [('Tabulation', [('target', 'LAMMPS'), ('nr', '6'), ('cutoff', '2.5')]), ('Pair', [(k, '>0 ' + d) for k, d, _ in seq]), ('Potential-Form', forms)])
+        try:
+            tab = Configuration().read(io.StringIO(ini))
+            bad = []
+            for p, (k, d, f) in zip(tab.potentials, seq):
+                for r_ in (0.5, 1.0, 1.5, 2.5):
+                    got = p.energy(r_)
+                    if abs(got - f(r_)) > 1e-9 * max(1.0, abs(f(r_))): bad.append('%s (%s) at r=%r: %r, its definition gives %r' % (k, d, r_, got, f(r_)))
+            # interleaved evaluation
+            for r_ in (0.5, 1.5):
+                vals = [(p.energy(r_), f(r_), k) for p, (k, d, f) in zip(tab.potentials, seq)]
+                bad += ['%s interleaved at r=%r: %r vs %r' % (k, r_, g, w) for g, w, k in vals if abs(g - w) > 1e-9 * max(1.0, abs(w))]
+            if bad: rep.dev('parameter-collision-' + order, dict(kind='parameter-collision', order=order), bad[0] + (' (+%d more)' % (len(bad) - 1) if len(bad) > 1 else ''), 'each pair evaluates its own definition')
+            else: rep.ok()
+        except Exception as e:
+            rep.dev('parameter-collision-' + order, dict(kind='parameter-collision', order=order), 'exception %r' % (e,), 'a table')
+
 if __name__ == '__main__':
     if '--one' in sys.argv:
         print(digest(tabulate_text(sys.stdin.read()))); sys.exit(0)
     pl = payload(); rep = Report('C12')
-    if pl.get('mode') == 'replay': rep.case('replay', pl['input']); check_case(rep, pl['input'], 'replay')
+    if pl.get('mode') == 'replay' and pl['input'].get('kind') == 'parameter-collision': parameter_collision_cases(rep)
+    elif pl.get('mode') == 'replay': rep.case('replay', pl['input']); check_case(rep, pl['input'], 'replay')
     else:
         rng = random.Random(pl.get('seed', 0))
+        parameter_collision_cases(rep)
         for i in range(pl.get('n', 12)):
             c = dict(kind=rng.choice(['pair', 'eam', 'eam', 'fs']), seed=rng.randint(0, 10 ** 6), hashseeds=[1, 2, 3, 4] if i < 6 else [rng.randint(0, 1000)])
             rep.case(c['kind'], c); check_case(rep, c, 'seeded-%d' % i)
